@@ -118,7 +118,7 @@ func caseC06(c *Ctx) {
 	case "preexisting":
 		for _, r := range forest {
 			if c.Chance(1, 2) {
-				st.pre[r.Name] = []string{"d", "f"}[c.Draw(2)]
+				st.pre[r.Name] = []string{"d", "f", "l"}[c.Pick(3, 3, 1)]
 			}
 		}
 		if len(st.pre) == 0 {
@@ -178,9 +178,12 @@ func caseC06(c *Ctx) {
 		}
 		for n, k := range st.pre {
 			p := filepath.Join(target, n)
-			if k == "d" {
+			switch k {
+			case "d":
 				os.MkdirAll(filepath.Join(p, "old"), 0o755)
-			} else {
+			case "l":
+				os.Symlink("/nonexistent/elsewhere", p) // a dangling symlink: the name is taken
+			default:
 				os.WriteFile(p, []byte("old"), 0o644)
 			}
 		}
@@ -240,6 +243,21 @@ func caseC06(c *Ctx) {
 		if (injected || realFail != "") && out.Err == nil {
 			fail("C06:failed-operation-reported-as-success:"+mode, "a filesystem operation failed (%s %s) and the call returned nil", fault, realFail)
 		}
+		onlyLinks := false
+		for _, k := range st.pre {
+			if k == "l" {
+				onlyLinks = true // at least one root name is taken by a dangling symlink
+			}
+		}
+		if onlyLinks && !injected {
+			// os.Stat follows the dangling link and reports "not exist": the library goes on and
+			// the operating system refuses; what matters is that this is not reported as success
+			// and that nothing that existed is changed
+			if out.Err == nil {
+				fail("C06:failed-operation-reported-as-success:"+mode, "a root name is taken by a dangling symlink; the call returned nil\nnew entries: %v", newEntries)
+			}
+			return
+		}
 		if len(st.pre) > 0 && !injected {
 			if !errors.Is(out.Err, gtree.ErrExistPath) {
 				fail("C06:existing-root-not-rejected:"+mode, "roots %v already exist; the call returned %v", st.pre, out.Err)
@@ -287,6 +305,10 @@ func caseC06(c *Ctx) {
 		}
 	}
 
+	if st.kind == "empty" && !massive && c.Chance(1, 6) {
+		c06RelativeTarget(c, op, forest, doc, want)
+		return
+	}
 	// ---- fault-free run
 	d0 := prepare()
 	base, b0, a0 := exec(d0, "base")
@@ -689,4 +711,45 @@ func strictStr(b bool) string {
 		return "strict"
 	}
 	return "non-strict"
+}
+
+// c06RelativeTarget: the target directory is given as a relative path; between an earlier
+// library call and the Mkdir the process changes its working directory. The tree must be
+// created below the working directory of the moment of the call.
+func c06RelativeTarget(c *Ctx, op Op, forest []*MNode, doc []byte, want map[string]string) {
+	j := newJail()
+	defer removeJail(j)
+	old, _ := os.Getwd()
+	defer os.Chdir(old)
+	cwd1, cwd2 := filepath.Join(j, "cwd1"), filepath.Join(j, "cwd2")
+	os.MkdirAll(cwd1, 0o755)
+	os.MkdirAll(filepath.Join(cwd2, "out"), 0o755)
+	c.st.Count("relative-target-after-chdir")
+	c.Scenario["state"] = "relative target, working directory changed after an earlier call"
+	os.Chdir(cwd1)
+	// an earlier, unrelated call (also one that touches the mkdir machinery)
+	pre := &Env{Doc: []byte("- earlier\n  - call\n"), Reader: noReaderFault, Writer: noWriterFault, Cb: noCbFault, Disk: &DiskPlan{Jail: j, Target: "first", FailAt: -1}}
+	c.Direct(Op{Kind: "mkdir"}, pre)
+	os.Chdir(cwd2)
+	env := &Env{Doc: doc, Reader: noReaderFault, Writer: noWriterFault, Cb: noCbFault, Disk: &DiskPlan{Jail: j, Target: "out", FailAt: -1}}
+	if op.FromRoot {
+		env.Tree = forest[0]
+	}
+	c.st.Count("evaluations")
+	out := c.Direct(op, env)
+	if len(out.Panics) > 0 {
+		return
+	}
+	if out.Err != nil {
+		c.Failf("C06:relative-target:error", "Mkdir with the relative target \"out\" failed: %v", out.Err)
+	}
+	got := snapMap(snapshot(filepath.Join(cwd2, "out")))
+	for p, k := range want {
+		if got[p].Kind != k {
+			c.Failf("C06:relative-target:wrong-place", "node path %s (kind %s) is not below <cwd>/out after Mkdir with a relative target (found %q); entries elsewhere in the jail:\n%s", p, k, got[p].Kind, snapString(snapshot(j)))
+		}
+	}
+	if len(got) != len(want) {
+		c.Failf("C06:relative-target:extra-entry", "%d entries below <cwd>/out, expected %d", len(got), len(want))
+	}
 }
